@@ -549,6 +549,7 @@ class AsyncClient(base_client.BaseClient):
     async def _handle_eio_connect(self):
         """Handle the Engine.IO connection event."""
         self.logger.info('Engine.IO connection established')
+        self._transport_ended = False
         self.sid = self.eio.sid
         real_auth = await self._get_real_value(self.connection_auth) or {}
         for n in self.connection_namespaces:
@@ -557,6 +558,10 @@ class AsyncClient(base_client.BaseClient):
 
     async def _handle_eio_message(self, data):
         """Dispatch Engine.IO messages."""
+        if self._transport_ended:
+            # a message that was received before the transport ended, but is
+            # dispatched after the disconnection has already been processed
+            return
         if self._binary_packet:
             pkt = self._binary_packet
             if pkt.add_attachment(data):
@@ -586,6 +591,7 @@ class AsyncClient(base_client.BaseClient):
     async def _handle_eio_disconnect(self, reason):
         """Handle the Engine.IO disconnection event."""
         self.logger.info('Engine.IO connection dropped')
+        self._transport_ended = True
         will_reconnect = self.reconnection and self.eio.state == 'connected'
         if self.connected:
             for n in self.namespaces:
